@@ -18,6 +18,7 @@ times, by independent builders, for different properties and over different valu
 | `Lena.C08` | `update_recursively`, `get_recursively`, `contains`, `str_to_dict`, `format_context`, `format_update_with` | insertion-ordered association lists `Entries` with string keys; lists are values |
 | `Lena.C15` | `contains`, `get_recursively` | slot vectors of its own type `C15.Val` + key table `names` |
 | `Lena.C14` / `Lena.C11` | `update_nested` (C11), `Variable._update_context` (C14) | slot vectors of C14's own type `V` (tuples / lists inside) |
+| `Lena.Flow` (C01, C05) | `Variable._update_context` for untyped variables (`variableCall`) | association lists `Flow.Ctx` |
 
 Each transcription is validated against the real code by its own correspondence check.  This file proves
 that they agree with each other, for ALL inputs, under explicit translation maps; so a transcription error
@@ -37,11 +38,23 @@ in one of them would contradict another one that was validated separately, and t
 * `of15 / to15 : C15.Val ≃ Val C15.Leaf`: C15's own slot type is the shared one (a renaming).
 * `leaf13 : C08.Leaf → C13.Leaf` (ints and strings as themselves, everything else `bad`), `leaf15 :
   C08.Leaf → C15.Leaf` (`None`, `bool`, `int`, `str` as themselves; a float / foreign object by its `str()`).
-* `toV lf14 : Val β → C14.V`: the shared slot type inside C14's value type.
-* a key path of strings `p` is the path of slot numbers `p.map names.idxOf` (`idx`).
+* `mapLeaf f : Val α → Val γ`: change of leaf type (the functions that never look at a leaf commute with it).
+* `toV lv : Val β → C14.V` (`toVL`): the shared slot type inside C14's value type (`lv` must not produce a
+  dictionary); `absF names : Flow.Value → C14.V` (`absFE`): the slot view of the association lists of the
+  flow vocabulary of C01/C05.
+* a key path of strings `p` is the path of slot numbers `idx names p = p.map names.idxOf`; a template with
+  string keys `Tpl8` is read by C08 as its template string `Tpl8.str` and by C13 as the parsed `Tpl8.to13`.
+
+The executable cross-check (`drivers/BridgeContext.lean`, `harness/props/bridge_context.py`) imports this file:
+the maps that the driver applies to the inputs of the real code are the maps the theorems are about.
 
 Sections: 0. maps — 1. `update_recursively` — 2. `intersection` — 3. `get_recursively` — 4. `contains` —
-5. `str_to_dict` — 6. `format_context`, `format_update_with` — 7. `update_nested` — 8. `_update_context`. -/
+5. `str_to_dict` — 6. `format_context`, `format_update_with` — 7. `update_nested` — 8. `_update_context` —
+9. the slot-vector side is covered too (`absE` is onto).
+
+Not bridged here (other transcriptions of the same functions exist): `C10.getRec`/`updPath` (literal dotted keys
+on C10's association lists), `C04.interL1`/`diffL1` (level 1 on C04's contents), `C19.interOut`/`diffOut`/`updOut`
+(one flat record), `C09`'s flat `d.update`; `difference` is transcribed in full only by C07. -/
 
 set_option linter.unusedSimpArgs false
 set_option linter.unusedVariables false
@@ -320,8 +333,8 @@ def leaf15to8 : C15.Leaf → C08.Leaf
   | .str s => .str s
   | .obj s => .obj (some s)
 
-theorem leaf13_leaf13to8 (a : C13.Leaf) (h : a ≠ .bad) : leaf13 (leaf13to8 a) = a := by
-  cases a <;> simp [leaf13, leaf13to8] at h ⊢
+theorem leaf13_leaf13to8 (a : C13.Leaf) : leaf13 (leaf13to8 a) = a := by
+  cases a <;> simp [leaf13, leaf13to8]
 
 theorem leaf15_leaf15to8 (a : C15.Leaf) : leaf15 (leaf15to8 a) = a := by
   cases a <;> simp [leaf15, leaf15to8]
@@ -385,6 +398,11 @@ theorem absE_concE (names : List String) (hn : names.Nodup) (hl : ∀ a, lf (cl 
   have := abs_conc lf ls cl names hn hl (.dict l) (by rw [WF]; exact hw)
   rw [concV_dict, absV_dict] at this
   exact Val.dict.inj this
+
+example : absE leaf13 (fun _ => C13.Leaf.bad) ["a", "b"]
+      (concE leaf13to8 ["a", "b"] [some (.dict [none, some (.leaf (.int 3))]), some (.leaf (.str "s"))]) =
+    [some (.dict [none, some (.leaf (.int 3))]), some (.leaf (.str "s"))] :=
+  absE_concE leaf13 _ leaf13to8 ["a", "b"] (by decide) leaf13_leaf13to8 _ (by simp [WFD, WFL, WF])
 
 end absconc
 
@@ -485,6 +503,14 @@ view forgets (C08 keeps it: `to_string`, `repr`). -/
 theorem updRec_08_07 (d o : C08.Entries) (ho : C08.EntriesWF o) :
     absE lf ls names (C08.updRec d o) = C07.updL (absE lf ls names d) (absE lf ls names o) :=
   absE_updRec_of lf ls names o ho (updOK_entries lf ls names o ho) d
+
+/-- the hypothesis is necessary: for an `other` with a repeated key (not a Python dict) C08's fold applies both
+bindings, the slot view sees the first only -/
+example : absE leaf13 (fun _ => C13.Leaf.bad) ["a", "x", "y"]
+      (C08.updRec [] [("a", .dict [("x", .leaf (.int 1))]), ("a", .dict [("y", .leaf (.int 2))])]) ≠
+    C07.updL (absE leaf13 (fun _ => C13.Leaf.bad) ["a", "x", "y"] [])
+      (absE leaf13 (fun _ => C13.Leaf.bad) ["a", "x", "y"]
+        [("a", .dict [("x", .leaf (.int 1))]), ("a", .dict [("y", .leaf (.int 2))])]) := by decide +kernel
 
 /-- the item assigned under one key (`updItem`, the body of the loop) against C07's `updO` -/
 theorem updItem_08_07 (cur : Option C08.Val) (v : C08.Val) (hv : v.WF) :
@@ -650,6 +676,9 @@ theorem c13_inter_perm (n : Nat) (ds ds' : List C13.Ctx) (hp : ds.Perm ds') (hw 
   rw [← interN_13_07 n (-1) (by decide), ← interN_13_07 n (-1) (by decide)]
   exact C07.inter_perm n (-1) ds ds' hp hw
 
+example : ∀ d ∈ [[some (Val.leaf (C13.Leaf.int 1)), none], [none, some (.dict [none, none])]], WFD 2 d := by
+  intro d hd; simp at hd; rcases hd with rfl | rfl <;> simp [WFD, WFL, WF]
+
 /-- C07's `inter_lower` / `inter_greatest` for C13, in C07's executable containment `⊑` -/
 theorem c13_inter_glb (n : Nat) (ds : List C13.Ctx) :
     (∀ d ∈ ds, C07.contained (-1) (C13.interN n ds) d = true) ∧
@@ -790,6 +819,11 @@ theorem getRec_13_path : ∀ (p : List Nat) (d : C13.Ctx),
       | leaf a => simp [Except.toOption, getPath]
       | dict d' => simpa using getRec_13_path (k' :: ks) d'
 
+/-- C07Ext's `get_recursively(c, "output.changed", default)` for a two-part key (`getRec2`, used by its
+transcription of `group_plots`) is C13's walk on the two slot numbers -/
+theorem getRec2_07_13 (c : C13.Ctx) (o ch : Nat) : C07.getRec2 c o ch = (C13.getRec c [o, ch]).toOption := by
+  rw [getRec_13_path]; rfl
+
 /-- when C13's walk fails it names a key of the path (`Props.C13.getRec_error_mem`), and then the path names
 nothing -/
 theorem getRec_13_error (p : List Nat) (d : C13.Ctx) (k : Nat) (h : C13.getRec d p = .error k) :
@@ -882,6 +916,9 @@ theorem getRec_08_13 (es : C08.Entries) (key : C08.KeyArg) (p : List String)
     | ok w => rw [hr] at h13; simp [Except.toOption] at h13
     | error k => exact ⟨by simp, k, C13.getRec_error_mem _ _ k hr, rfl⟩
 
+example : C08.normKeys (.str "a.b") = .ok (["a", "b"].map C08.Leaf.str) ∧ (∀ k ∈ ["a", "b"], k ∈ ["a", "b", "c"]) := by
+  refine ⟨by decide, by simp⟩
+
 /-! ### C15's slot view of a C08 dictionary -/
 
 /-- a Python list has no counterpart in C15 (placeholder; lists are outside the common domain) -/
@@ -943,6 +980,9 @@ theorem c08_update_keeps (d o : C08.Entries) (ho : C08.EntriesWF o) (p : List St
   rw [getPath_08_path lf ls names p _ hp, getPath_08_path lf ls names p _ hp, absV_dict, absV_dict,
     updRec_08_07 lf ls names d o ho]
   exact C07.update_keeps _ _ _ h
+
+example : C07.untouchedL (absE leaf13 (fun _ => C13.Leaf.bad) ["a", "b"] [("a", .dict [("b", .leaf (.int 1))])])
+    (idx ["a", "b"] ["a", "a"]) = true := by decide
 
 /-- the same law for C13's transcriptions of `update_recursively` and `get_recursively`: a `SetContext`
 whose key path leaves `p` alone does not change what a later formatting string reads at `p` -/
@@ -1063,6 +1103,11 @@ example : In15E [("a", .dict [("b", .leaf (.float "1.5"))]), ("c", .leaf (.bool 
 example : C15.contains ["a", "b", "1.5"] (abs15E ["a", "b", "1.5"] [("a", .dict [("b", .leaf (.int 7))])]) "a.b.7" =
     C08.contains [("a", .dict [("b", .leaf (.int 7))])] "a.b.7" := by decide
 
+/-- the hypothesis `In15` is necessary: for an object whose `str()` raises, C08 answers `False` (the exception
+is caught), while C15 — which has no such scalar — sees the empty string -/
+example : C08.contains [("a", .leaf (.obj none))] "a." = false ∧
+    C15.contains ["", "a"] (abs15E ["", "a"] [("a", .leaf (.obj none))]) "a." = true := by decide
+
 /-! ### corollaries -/
 
 /-- C08's characterisation `contains_iff` ("the path names an item, or its last part is `str()` of the scalar
@@ -1171,6 +1216,20 @@ theorem nestPath_08_13 (hn : names.Nodup) : ∀ (ks : List String) (k : String) 
     rw [absE_singleton _ _ names hn, C08.nestPath, absV_dict, nestPath_08_13 hn ks k' a]
     simp [idx, C13.single]
 
+/-- **str_to_dict, C08 ↔ C13** (the function, as `SetContext("k.ks", a)` calls it): for a proper key path and a
+scalar value, C08's `strToDict` returns a dictionary whose slot view is `C13.single` -/
+theorem strToDict_08_13 (hn : names.Nodup) (k : String) (ks : List String) (hw : C08.WFPath (k :: ks))
+    (a : C08.Leaf) :
+    ∃ es, C08.strToDict (C08.joinDots (k :: ks)) (some (.leaf a)) = .ok (.dict es) ∧
+      absE leaf13 (fun _ => C13.Leaf.bad) names es =
+        C13.single names.length (names.idxOf k) (idx names ks) (leaf13 a) := by
+  refine ⟨[(k, C08.nestPath ks (.leaf a))], ?_, nestPath_08_13 names hn ks k a⟩
+  unfold C08.strToDict
+  rw [if_neg (C08.joinDots_ne_empty _ (by simp) hw)]
+  simp only
+  rw [C08.splitDots_joinDots _ (by simp) (fun k' hk' => (hw k' hk').2), C08.nestList_eq _ _ (by simp)]
+  rfl
+
 /-- outcomes of `str_to_dict` / `update_recursively` with a string: C08's `Except Exc Val` against
 C07Ext's `OutX` -/
 def outRelX : Except C08.Exc C08.Val → C07.OutX (Slots β) → Prop
@@ -1182,19 +1241,22 @@ def outRelX : Except C08.Exc C08.Val → C07.OutX (Slots β) → Prop
 theorem idx_dropLast (p : List String) : (idx names p).dropLast = idx names p.dropLast := by
   simp [idx, List.map_dropLast]
 
-/-- **str_to_dict, C08 ↔ C07** (the function, a proper key path): for the string `".".join(p)` of a key path
-`p` (non-empty, dot-free keys of the table) C08's `strToDict` and C07Ext's `strToDict` on the slot numbers
-have the same outcome, with and without `value`: the nested dictionary (in the slot view), or
-`LenaValueError` when there is no value and only one part -/
-theorem strToDict_08_07 (hn : names.Nodup) (p : List String) (hne : p ≠ []) (hw : C08.WFPath p)
-    (hk : ∀ k ∈ p, k ∈ names) (value : Option C08.Val) :
-    outRelX lf ls names (C08.strToDict (C08.joinDots p) value)
-      (C07.strToDict names.length false (idx names p) (lf (.str (p.getLastD "")))
-        (value.map (absV lf ls names))) := by
+/-- **str_to_dict, C08 ↔ C07** (the function): for EVERY non-empty string `s` whose dot-separated parts
+(`C08.splitDots s`, also empty ones) are keys of the table, C08's `strToDict s value` and C07Ext's `strToDict`
+on the slot numbers of the parts have the same outcome, with and without `value`: the nested dictionary (in
+the slot view), or `LenaValueError` when there is no value and only one part -/
+theorem strToDict_08_07 (hn : names.Nodup) (s : String) (hs : s ≠ "")
+    (hk : ∀ k ∈ C08.splitDots s, k ∈ names) (value : Option C08.Val) :
+    outRelX lf ls names (C08.strToDict s value)
+      (C07.strToDict names.length false (idx names (C08.splitDots s))
+        (lf (.str ((C08.splitDots s).getLastD ""))) (value.map (absV lf ls names))) := by
   unfold C08.strToDict
-  rw [if_neg (C08.joinDots_ne_empty _ hne hw)]
+  rw [if_neg hs]
   simp only
-  rw [C08.splitDots_joinDots _ hne (fun k hk' => (hw k hk').2)]
+  generalize hp : C08.splitDots s = p at hk ⊢
+  have hne : p ≠ [] := by
+    rw [← hp, C08.splitDots]
+    simp [C08.splitDotsC_ne_nil]
   obtain ⟨k0, r, rfl⟩ : ∃ k0 r, p = k0 :: r := by
     cases p with
     | nil => exact absurd rfl hne
@@ -1231,54 +1293,68 @@ theorem strToDict_08_07 (hn : names.Nodup) (p : List String) (hne : p ≠ []) (h
       rw [e2]
       rfl
 
+/-- the same for the string `".".join(p)` of a key path `p` as the other models mean it (`WFPath`: non-empty
+keys without dots): the parts are `p` itself -/
+theorem strToDict_path_08_07 (hn : names.Nodup) (p : List String) (hne : p ≠ []) (hw : C08.WFPath p)
+    (hk : ∀ k ∈ p, k ∈ names) (value : Option C08.Val) :
+    outRelX lf ls names (C08.strToDict (C08.joinDots p) value)
+      (C07.strToDict names.length false (idx names p) (lf (.str (p.getLastD "")))
+        (value.map (absV lf ls names))) := by
+  have hsp := C08.splitDots_joinDots _ hne (fun k hk' => (hw k hk').2)
+  have := strToDict_08_07 lf ls names hn (C08.joinDots p) (C08.joinDots_ne_empty _ hne hw) (by rw [hsp]; exact hk) value
+  rwa [hsp] at this
+
 /-- **str_to_dict, C08 ↔ C07** (the empty string): `{}` without a value, `LenaValueError` with one -/
 theorem strToDict_empty_08_07 (ks : List Nat) (last : β) (value : Option C08.Val) :
     outRelX lf ls names (C08.strToDict "" value)
       (C07.strToDict names.length true ks last (value.map (absV lf ls names))) := by
   cases value <;> simp [C08.strToDict, C07.strToDict, outRelX, absE_nil]
 
-/-- **update_recursively with a string, C08 ↔ C07**: `update_recursively(d, "k1.k2…", value)` — C08's
-`updateRecursively` with `UpdOther.str` against C07Ext's `updateRecursivelyX` with `Other.str` on the slot
-numbers: the same outcome (updated dictionary in the slot view / `LenaValueError` / `LenaTypeError` for a `d`
-that is not a dictionary), for every value without a repeated key -/
-theorem updateRecursivelyStr_08_07 (hn : names.Nodup) (p : List String) (hne : p ≠ []) (hw : C08.WFPath p)
-    (hk : ∀ k ∈ p, k ∈ names) (d : C08.Val) (value : Option C08.Val) (hv : ∀ v, value = some v → v.WF) :
-    outRelX lf ls names (C08.updateRecursively d (.str (C08.joinDots p)) value)
+/-- **update_recursively with a string, C08 ↔ C07**: `update_recursively(d, s, value)` for every non-empty
+string `s` with parts in the table — C08's `updateRecursively` with `UpdOther.str` against C07Ext's
+`updateRecursivelyX` with `Other.str` on the slot numbers of the parts: the same outcome (updated dictionary
+in the slot view / `LenaValueError` / `LenaTypeError` for a `d` that is not a dictionary), for every value
+without a repeated key -/
+theorem updateRecursivelyStr_08_07 (hn : names.Nodup) (s : String) (hs : s ≠ "")
+    (hk : ∀ k ∈ C08.splitDots s, k ∈ names) (d : C08.Val) (value : Option C08.Val) (hv : ∀ v, value = some v → v.WF) :
+    outRelX lf ls names (C08.updateRecursively d (.str s) value)
       (C07.updateRecursivelyX names.length (absV lf ls names d)
-        (.str false (idx names p) (lf (.str (p.getLastD "")))) (value.map (absV lf ls names))) := by
-  have h := strToDict_08_07 lf ls names hn p hne hw hk value
-  have hwf : ∀ es, C08.strToDict (C08.joinDots p) value = .ok (.dict es) → C08.EntriesWF es := by
+        (.str false (idx names (C08.splitDots s)) (lf (.str ((C08.splitDots s).getLastD ""))))
+        (value.map (absV lf ls names))) := by
+  have h := strToDict_08_07 lf ls names hn s hs hk value
+  have hwf : ∀ es, C08.strToDict s value = .ok (.dict es) → C08.EntriesWF es := by
     intro es he
     unfold C08.strToDict at he
-    rw [if_neg (C08.joinDots_ne_empty _ hne hw)] at he
+    rw [if_neg hs] at he
     simp only at he
-    rw [C08.splitDots_joinDots _ hne (fun k hk' => (hw k hk').2)] at he
     have nestWF : ∀ (q : List String) (x : C08.Val), x.WF → (C08.nestPath q x).WF := by
       intro q
       induction q with
       | nil => intro x hx; simpa [C08.nestPath] using hx
       | cons k q ih => intro x hx; simp [C08.nestPath, C08.Val.WF, C08.EntriesWF, C08.lookup, ih x hx]
+    have hne : C08.splitDots s ≠ [] := by rw [C08.splitDots]; simp [C08.splitDotsC_ne_nil]
     cases value with
     | some v =>
       dsimp only at he
       rw [C08.nestList_eq _ _ hne] at he
-      have := nestWF p v (hv v rfl)
+      have := nestWF (C08.splitDots s) v (hv v rfl)
       rw [Except.ok.injEq] at he
       rw [he] at this; exact this
     | none =>
       dsimp only at he
-      by_cases hd : p.dropLast = []
+      by_cases hd : (C08.splitDots s).dropLast = []
       · rw [hd] at he; simp [C08.nestList] at he
       · rw [C08.nestList_eq _ _ hd] at he
-        have := nestWF p.dropLast (.leaf (.str (p.getLastD ""))) (by simp [C08.Val.WF])
+        have := nestWF (C08.splitDots s).dropLast (.leaf (.str ((C08.splitDots s).getLastD ""))) (by simp [C08.Val.WF])
         rw [Except.ok.injEq] at he
         rw [he] at this; exact this
   unfold C08.updateRecursively C07.updateRecursivelyX
   simp only
-  cases h8 : C08.strToDict (C08.joinDots p) value with
+  cases h8 : C08.strToDict s value with
   | error e =>
     rw [h8] at h
-    cases h7 : C07.strToDict names.length false (idx names p) (lf (.str (p.getLastD ""))) (value.map (absV lf ls names)) with
+    cases h7 : C07.strToDict names.length false (idx names (C08.splitDots s))
+        (lf (.str ((C08.splitDots s).getLastD ""))) (value.map (absV lf ls names)) with
     | ok l => rw [h7] at h; cases e <;> simp [outRelX] at h
     | lenaTypeError => rw [h7] at h; cases e <;> simp_all [outRelX]
     | lenaValueError => rw [h7] at h; cases e <;> simp_all [outRelX]
@@ -1289,7 +1365,8 @@ theorem updateRecursivelyStr_08_07 (hn : names.Nodup) (p : List String) (hne : p
     | leaf a => simp [outRelX] at h
     | list xs => simp [outRelX] at h
     | dict oe =>
-      cases h7 : C07.strToDict names.length false (idx names p) (lf (.str (p.getLastD ""))) (value.map (absV lf ls names)) with
+      cases h7 : C07.strToDict names.length false (idx names (C08.splitDots s))
+          (lf (.str ((C08.splitDots s).getLastD ""))) (value.map (absV lf ls names)) with
       | ok l =>
         rw [h7] at h
         simp only [outRelX] at h
@@ -1307,7 +1384,7 @@ theorem updateRecursivelyStr_08_07 (hn : names.Nodup) (p : List String) (hne : p
 example : outRelX leaf13 (fun _ => C13.Leaf.bad) ["a", "b"]
     (C08.strToDict (C08.joinDots ["a", "b"]) (some (.leaf (.int 5))))
     (C07.strToDict 2 false [0, 1] (.str "b") (some (.leaf (.int 5)))) := by
-  have := strToDict_08_07 leaf13 (fun _ => C13.Leaf.bad) ["a", "b"] (by decide) ["a", "b"] (by simp)
+  have := strToDict_path_08_07 leaf13 (fun _ => C13.Leaf.bad) ["a", "b"] (by decide) ["a", "b"] (by simp)
     (by intro k hk; simp at hk; rcases hk with rfl | rfl <;> decide) (by simp) (some (.leaf (.int 5)))
   have e : List.idxOf "b" ["a", "b"] = 1 := by decide
   simpa [idx, absV_leaf, leaf13, e] using this
@@ -1508,6 +1585,43 @@ theorem fmt_08_13 (t : Tpl8) (hw : t.WF names) :
     refine ⟨C08.renderSpec es t.pieces, (hcall es).2 hp hstr, ?_⟩
     simp only [C13.fmt, Tpl8.to13, (lookups_13_08 names es t.parts hw.2).1 hp',
       renderAll_13_08 names es t.parts t.head hp' hs, Tpl8.pieces, C08.renderSpec]
+
+/-- what C13 does outside the common domain: when all fields are present but one names something else than an
+int or a string (a dictionary, a list, `None`, a bool, a float, a foreign object), `C13.fmt` returns its
+poison leaf `bad` (C08 returns Python's `str()` of the item, or declines) -/
+theorem renderAll_13_bad (es : C08.Entries) : ∀ (parts : List (List String × String)) (acc : String),
+    C08.fieldsPresent es (partPieces parts) = true →
+    (∃ pl ∈ parts, ∀ v, C08.getPath (.dict es) pl.1 = some v → ¬ IsIS v) →
+    C13.renderAll acc (vals13 names es parts) = none
+  | [], acc, _, h => by obtain ⟨pl, hm, _⟩ := h; simp at hm
+  | (p, lit) :: r, acc, hf, h => by
+    simp only [partPieces, C08.fieldsPresent, Bool.and_eq_true] at hf
+    obtain ⟨v, hv⟩ := Option.isSome_iff_exists.1 hf.1
+    simp only [vals13, C13.renderAll, hv, Option.getD_some]
+    cases hr : C13.render (absV leaf13 (fun _ => C13.Leaf.bad) names v) with
+    | none => rfl
+    | some sv =>
+      simp only
+      apply renderAll_13_bad es r _ hf.2
+      obtain ⟨pl, hm, hbad⟩ := h
+      rcases List.mem_cons.1 hm with e | e
+      · exfalso
+        subst e
+        have hni := hbad v hv
+        cases v with
+        | dict d => simp [absV_dict, C13.render] at hr
+        | list xs => simp [absV_list, C13.render] at hr
+        | leaf a => cases a <;> simp [absV_leaf, leaf13, C13.render, IsIS] at hr hni
+      · exact ⟨pl, e, hbad⟩
+
+theorem fmt_13_bad (t : Tpl8) (hw : t.WF names) (es : C08.Entries)
+    (hp : C08.fieldsPresent es t.pieces = true)
+    (hbad : ∃ pl ∈ t.parts, ∀ v, C08.getPath (.dict es) pl.1 = some v → ¬ IsIS v) :
+    C13.fmt (t.to13 names) (absE leaf13 (fun _ => C13.Leaf.bad) names es) = .ok .bad := by
+  have hp' : C08.fieldsPresent es (partPieces t.parts) = true := by
+    simpa [Tpl8.pieces, C08.fieldsPresent] using hp
+  simp only [C13.fmt, Tpl8.to13, (lookups_13_08 names es t.parts hw.2).1 hp',
+    renderAll_13_bad names es t.parts t.head hp' hbad]
 
 /-! ### `format_update_with` -/
 
@@ -1993,4 +2107,90 @@ theorem UP_untyped (d vc : Flow.Ctx) (ht : lookupF d "type" = none) (hc : lookup
   simp
 
 end updateContext
+
+/-! ## 9. The homomorphism theorems cover all inputs of the slot-vector side too
+
+`absE` is onto the well-formed slot vectors (`absE_concE`), and `concE` produces Python dictionaries (no key
+twice).  So every theorem of the form `absE (f₈ x) = f₇ (absE x)` determines `f₇` on *all* well-formed slot
+vectors from C08's transcription: spelled out for `update_recursively`, `get_recursively` and `contains`. -/
+
+section onto
+variable {β : Type} (lf : C08.Leaf → β) (ls : List C08.Val → β) (cl : β → C08.Leaf)
+
+mutual
+theorem concV_wf (names : List String) (hn : names.Nodup) : ∀ v : Val β, (concV cl names v).WF
+  | .leaf a => by rw [concV]; simp [C08.Val.WF]
+  | .dict l => by rw [concV, C08.Val.WF]; exact concL_wf names hn names l hn
+theorem concL_wf (names : List String) (hn : names.Nodup) : ∀ (ks : List String) (l : Slots β), ks.Nodup →
+    C08.EntriesWF (concL cl names ks l)
+  | _, [], _ => by simp [concL, C08.EntriesWF]
+  | [], _ :: _, _ => by simp [concL, C08.EntriesWF]
+  | k :: ks, none :: r, h => by rw [concL]; exact concL_wf names hn ks r (List.nodup_cons.1 h).2
+  | k :: ks, some v :: r, h => by
+    rw [concL, C08.EntriesWF]
+    exact ⟨lookup_concL_not_mem cl names k ks r (List.nodup_cons.1 h).1, concV_wf names hn v,
+      concL_wf names hn ks r (List.nodup_cons.1 h).2⟩
+end
+
+theorem concE_wf (names : List String) (hn : names.Nodup) (l : Slots β) : C08.EntriesWF (concE cl names l) :=
+  concL_wf cl names hn names l hn
+
+/-- **update_recursively, C07 from C08**: on ALL well-formed slot vectors C07's `updL` is the slot view of
+C08's `updRec` on the association lists -/
+theorem updL_07_08 (names : List String) (hn : names.Nodup) (hl : ∀ a, lf (cl a) = a) (d u : Slots β)
+    (hd : WFD names.length d) (hu : WFD names.length u) :
+    C07.updL d u = absE lf ls names (C08.updRec (concE cl names d) (concE cl names u)) := by
+  rw [updRec_08_07 lf ls names _ _ (concE_wf cl names hn u), absE_concE lf ls cl names hn hl d hd,
+    absE_concE lf ls cl names hn hl u hu]
+
+/-- **update_recursively, C13 from C08**: the same for C13's transcription, on all well-formed contexts
+without the poison leaf -/
+theorem updL_13_08 (names : List String) (hn : names.Nodup) (d u : C13.Ctx)
+    (hd : WFD names.length d) (hu : WFD names.length u) :
+    C13.updL d u = absE leaf13 (fun _ => C13.Leaf.bad) names
+      (C08.updRec (concE leaf13to8 names d) (concE leaf13to8 names u)) := by
+  rw [updL_13_07]
+  exact updL_07_08 leaf13 (fun _ => C13.Leaf.bad) leaf13to8 names hn leaf13_leaf13to8 d u hd hu
+
+/-- **get_recursively, path lookup from C08**: on all well-formed slot vectors the path lookup is the slot
+view of what C08's `getPath` finds in the association list -/
+theorem getPath_07_08 (names : List String) (hn : names.Nodup) (hl : ∀ a, lf (cl a) = a) (d : Slots β)
+    (hd : WFD names.length d) (p : List String) (hp : ∀ k ∈ p, k ∈ names) :
+    getPath (.dict d) (idx names p) =
+      (C08.getPath (.dict (concE cl names d)) p).map (absV lf ls names) := by
+  rw [getPath_08_path lf ls names p _ hp, absV_dict, absE_concE lf ls cl names hn hl d hd]
+
+mutual
+theorem in15_concV (names : List String) : ∀ v : Val C15.Leaf, In15 (concV leaf15to8 names v)
+  | .leaf a => by
+    rw [concV, In15]
+    cases a with
+    | bool b => cases b <;> simp [leaf15to8, C08.pyStr]
+    | none => simp [leaf15to8, C08.pyStr]
+    | int i => simp [leaf15to8, C08.pyStr]
+    | str s => simp [leaf15to8, C08.pyStr]
+    | obj s => simp [leaf15to8, C08.pyStr]
+  | .dict l => by rw [concV, In15]; exact in15_concL names names l
+theorem in15_concL (names : List String) : ∀ (ks : List String) (l : Slots C15.Leaf),
+    In15E (concL leaf15to8 names ks l)
+  | _, [] => by simp [concL, In15E]
+  | [], _ :: _ => by simp [concL, In15E]
+  | k :: ks, none :: r => by rw [concL]; exact in15_concL names ks r
+  | k :: ks, some v :: r => by rw [concL, In15E]; exact ⟨in15_concV names v, in15_concL names ks r⟩
+end
+
+/-- **contains, C15 from C08**: on every C15 dictionary that is well-formed over the table, `C15.contains` is
+`C08.contains` of its association list (C15's scalars all have a `str()` and C15 has no lists: the whole of
+C15's domain is common) -/
+theorem contains_15_08 (names : List String) (hn : names.Nodup) (d : C15.Slots)
+    (hd : WFD names.length (of15L d)) (s : String) (hk : ∀ k ∈ C08.splitDots s, k ∈ names) :
+    C15.contains names d s = C08.contains (concE leaf15to8 names (of15L d)) s := by
+  have h := contains_08_15 names (concE leaf15to8 names (of15L d)) s (in15_concL names names (of15L d)) hk
+  rw [abs15E, absE_concE leaf15 ls15 leaf15to8 names hn leaf15_leaf15to8 (of15L d) hd, to15L_of15L] at h
+  exact h
+
+example : WFD 2 (of15L [some (.dict [none, some (.leaf (.int 7))]), none]) := by
+  simp [of15L, of15, WFD, WFL, WF]
+
+end onto
 end Lena.Bridge.Context
